@@ -257,6 +257,23 @@ func c02(c *wk.Ctx) {
 			}
 			c.Count("nested_values_with_signatures_over_150_bytes", 1)
 		}
+		if i%16 == 7 {
+			// a raw buffer held by a value which is itself nested in an opaque structure / map / list of tuples
+			b := make([]byte, []int{0, 1, 3, 4, 5, 64, 1000}[rng.Intn(7)])
+			rng.Read(b)
+			raw := rc.DynV{T: rc.T(rc.Raw), V: b}
+			switch rng.Intn(4) {
+			case 0:
+				d = rc.DynV{T: rc.StructOf("Holder", []string{"content", "n"}, rc.T(rc.Dyn), rc.T(rc.Int32)), V: rc.Tup{raw, int32(rng.Int31())}}
+			case 1:
+				d = rc.DynV{T: rc.MapOf(rc.T(rc.String), rc.T(rc.Dyn)), V: []rc.KV{{K: "k", V: raw}}}
+			case 2:
+				d = rc.DynV{T: rc.TupleOf(rc.T(rc.Dyn), rc.T(rc.String)), V: rc.Tup{raw, "after"}}
+			default:
+				d = rc.DynV{T: rc.ListOf(rc.TupleOf(rc.T(rc.String), rc.T(rc.Dyn))), V: []interface{}{rc.Tup{"a", raw}, rc.Tup{"b", rc.DynV{T: rc.T(rc.Int32), V: int32(7)}}}}
+			}
+			c.Count("raw_buffers_nested_in_opaque_values", 1)
+		}
 		checkDyn(c, "opaque", i, d, rng, false)
 		c.Nontrivial(wk.Hash64("opaque", d.T.Shape()))
 		c.Count("class_"+dynClass(d.T), 1)
